@@ -57,7 +57,13 @@ Theorem C09_copy_append_preserves : forall h0 r d x np h' res,
 Proof. intros h0 r d x np h' res. apply append_fresh_inv. apply copy_fresh. Qed.
 Print Assumptions C09_copy_append_preserves.
 
-(*SETINT*)
+(* x[idx] = <fresh tree> for any integer idx (negative and out-of-range included: the IndexError path leaves the tree
+   untouched), after repair c876dc9: the recorded position is the normalised index; the replaced child is detached *)
+Theorem C09_setitem_int_preserves : forall h0 r x idx t h' res,
+  Inv h0 r -> reach h0 r x -> (c <- build t ;; loop_setitem_int x idx c) h0 = (h', res) -> ok_result res -> Inv h' r.
+Proof. intros h0 r x idx t h' res. apply setitem_int_fresh_inv. apply build_fresh. Qed.
+Print Assumptions C09_setitem_int_preserves.
+
 (* replacing the children list of a live node x by kept old children (possibly renumbered) and roots of fresh trees,
    every listed child recording parent x and its index: everything of Inv holds except the caches of x and its
    ancestors (which the reset walk then clears, C09_reset_walk_restores).  The lemma every structural operation reduces to. *)
@@ -121,6 +127,19 @@ Theorem C09_merge_preserves : forall vctr h r x h' res,
   Inv h r -> reach h r x -> try_merge vctr x h = (h', res) -> ok_result res -> Inv h' r.
 Proof. intros. eapply try_merge_inv; eauto. Qed.
 Print Assumptions C09_merge_preserves.
+
+(* split_one_child(child_index), any index incl. negative / None / out of range (error paths leave the tree untouched):
+   copy, the two repetition setters, slice insertion *)
+Theorem C09_split_preserves : forall h r x ci h' res,
+  Inv h r -> reach h r x -> split_one_child x ci h = (h', res) -> ok_result res -> Inv h' r.
+Proof. exact split_inv. Qed.
+Print Assumptions C09_split_preserves.
+
+(* encapsulate: the old children move under a fresh node (old subtrees re-parented), x keeps exactly that node *)
+Theorem C09_encapsulate_preserves : forall h r x h' res,
+  Inv h r -> reach h r x -> encapsulate x h = (h', res) -> ok_result res -> Inv h' r.
+Proof. exact encapsulate_inv. Qed.
+Print Assumptions C09_encapsulate_preserves.
 
 (*MOREOPS*)
 
